@@ -148,6 +148,23 @@ impl Interp {
                     Err(_) => "err".into(),
                 }
             }
+            ["hs.http", method, path] => {
+                let (Some(m), Some(p)) = (unhex(method).and_then(|b| String::from_utf8(b).ok()), unhex(path).and_then(|b| String::from_utf8(b).ok())) else { return "bad-op".into() };
+                use octo_squirrel_client::client::verif::handshake as hs;
+                match hs::recognize_http(&m, &p) {
+                    Ok(hs::Proxy::Http(octo_squirrel::protocol::address::Address::Domain(h, port))) => format!("ok http {} {}", hex(h.as_bytes()), port),
+                    Ok(hs::Proxy::Https(octo_squirrel::protocol::address::Address::Domain(h, port))) => format!("ok https {} {}", hex(h.as_bytes()), port),
+                    Ok(_) => "ok other".into(),
+                    Err(_) => "err".into(),
+                }
+            }
+            ["hs.run", kind, segs, ..] => {
+                let segments: Vec<Vec<u8>> = segs.split(';').filter_map(unhex).collect();
+                let split = kv(t, "split").and_then(|x| x.parse::<usize>().ok());
+                let marker = kv(t, "marker").and_then(unhex).unwrap_or_default();
+                let _ = kind;
+                crate::hs::run(&self.rt, &segments, split, &marker)
+            }
             ["cfg.cipher", h] => {
                 let Some(name) = unhex(h).and_then(|b| String::from_utf8(b).ok()) else { return "err".into() };
                 match serde_json::from_value::<octo_squirrel::codec::aead::CipherKind>(serde_json::Value::String(name)) {
